@@ -12,19 +12,23 @@ from .contracts import Spec
 
 
 class HeapBuilder:
-    def __init__(self, ctx):
+    def __init__(self, ctx, preset=None, next_id=1, keep=None):
         self.ctx = ctx
         self.ids = {}
-        self.keep = []
-        self.next = 1
+        self.preset = dict(preset or {})  # python id -> heap id to reuse (post-state encoding keeps pre-state ids)
+        self.keep = list(keep or [])
+        self.next = next_id
         self.len_arr = z3.K(z3.IntSort(), z3.IntVal(0))
         self.item_arr = z3.K(z3.IntSort(), z3.K(z3.IntSort(), Z.NONE))
         self.fields = {}
 
     def new_id(self, obj):
         self.keep.append(obj)
-        i = self.next
-        self.next += 1
+        if id(obj) in self.preset:
+            i = self.preset[id(obj)]
+        else:
+            i = self.next
+            self.next += 1
         self.ids[id(obj)] = i
         return i
 
